@@ -109,9 +109,10 @@ class Ref:
         f.resolved = True
         f.value = value
         if f.parked is not None:
-            ps, tag = f.parked
+            ps, tag, when = f.parked
             f.parked = None
             self._wakes += 1
+            self.features.add("resolved-at-wait-instant" if when == self.now else "resolved-after-wait")
             self.push_cont(ps, value, tag)
         cbs, f.cbs = f.cbs, []
         for cb in cbs:
@@ -166,7 +167,7 @@ class Ref:
             self.features.add("wait-already-resolved")
             self.push_cont(ps, f.value, tag)
         else:
-            f.parked = (ps, tag)
+            f.parked = (ps, tag, self.now)
 
     # -------------------------------------------------------------- processes
     def run_hooks(self, owner, out):
